@@ -16,7 +16,8 @@ META = {
         'DnsRecordDnskey.key_tag must add big-endian 16 bit words (weights 256, 1), add an odd trailing byte with weight 256 '
         '(RFC 4034 App. B: key[i] << 8 for even i), fold with += (ac >> 16) & 0xffff and mask with 0xffff; algorithm 1 takes '
         'bits 8..23 of the modulus (B.1). R4 key material table: the curve and byte counts the parser uses per DNSSEC '
-        'algorithm (read from the dispatch in _parse_public_key_ecdsa/_eddsa and the dependency\'s named-group table) vs the RFCs.'),
+        'algorithm (read from the dispatch in _parse_public_key_ecdsa/_eddsa and the dependency\'s named-group table) vs the RFCs.'
+        ' R3 is decided by tabulation: the statements of key_tag are evaluated on RDATA whose 16 bit word sum sits on both sides of every carry boundary (even and odd lengths) and compared with the transcription of RFC 4034 Appendix B. R5: RSA exponent length forms (RFC 3110).'),
     'assumptions': ['fixed-length mpint arithmetic for all integers is not decided', 'sa/specs/dns.json transcribed by hand'],
     'trusted_base': ['sa/specs/dns.json', 'sa.interp/layout/canon/compare/spec', 'cryptodatahub named-group.json'],
     'exhaustive': True,
